@@ -19,7 +19,7 @@ struct Slot {
         int placement = 0;
 };
 
-enum FaultClass { FC_NONE = 0, FC_GUARD_AFTER, FC_GUARD_BEFORE, FC_RELEASED, FC_SLACK, FC_LIBDATA, FC_STRAY, FC_ABORT, FC_UD };
+enum FaultClass { FC_NONE = 0, FC_GUARD_AFTER, FC_GUARD_BEFORE, FC_RELEASED, FC_SLACK, FC_LIBDATA, FC_STRAY, FC_ABORT, FC_UD, FC_HANG };
 struct FaultInfo {
         int cls = FC_NONE;
         int slot_id = -1;
@@ -55,6 +55,7 @@ struct GuardCtx {
         FaultInfo fi;
 };
 extern __thread GuardCtx *t_guard;
+extern volatile uint64_t g_call_seq; // bumped at every guarded call; the watchdog sees a call that never returns
 void mem_install_handlers();
 // hook for other seams (cpu/sched) to look at SIGSEGV first; return true if handled
 typedef bool (*segv_hook_t)(int sig, siginfo_t *si, void *uc);
@@ -66,6 +67,7 @@ extern segv_hook_t g_segv_hook;
                 GuardCtx *_prev = t_guard;                                                         \
                 t_guard = &(gc);                                                                   \
                 if (sigsetjmp((gc).jb, 0) == 0) {                                                  \
+                        g_call_seq = g_call_seq + 1;                                               \
                         (gc).armed = 1;                                                            \
                         __VA_ARGS__;                                                               \
                         (gc).armed = 0;                                                            \
